@@ -119,6 +119,9 @@ def catalogue():
         # digits only, no exponent: the value is an integer beyond the float range
         ("number-400-digit-integer-to-printf-format", new_vec("Number", "DEV", "NUMBER_V", [one_child("Number", "N0", "1" + "0" * 400)]), {("NUMBER_V", "N0")}),
         ("number-400-digit-integer-to-sexagesimal-format", new_vec("Number", "DEV", "NUMBER_V", [one_child("Number", "N2", "-" + "9" * 400)]), {("NUMBER_V", "N2")}),
+        # an integer that still fits a float, but not after scaling by the sexagesimal unit count
+        ("number-306-digit-integer-to-sexagesimal-format", new_vec("Number", "DEV", "NUMBER_V", [one_child("Number", "N2", "1" + "0" * 305)]), {("NUMBER_V", "N2")}),
+        ("number-308-digit-integer-to-printf-format", new_vec("Number", "DEV", "NUMBER_V", [one_child("Number", "N0", "-" + "9" * 308)]), {("NUMBER_V", "N0")}),
         ("number-400-digit-fraction", new_vec("Number", "DEV", "NUMBER_V", [one_child("Number", "N0", "0." + "0" * 400 + "1")]), {("NUMBER_V", "N0")}),
         ("number-tiny-to-sexagesimal-format", new_vec("Number", "DEV", "NUMBER_V", [one_child("Number", "N2", "1e-320")]), {("NUMBER_V", "N2")}),
         ("number-huge-sexagesimal", new_vec("Number", "DEV", "NUMBER_V", [one_child("Number", "N0", "1e400:30")]), set()),
